@@ -1,80 +1,51 @@
-(* Proofs/PingMore.v — corollaries: distinct identifiers, exact table contents, own-reply-only,
-   commutation of notifications, sufficient conditions for [young], non-vacuity. *)
+(* Proofs/PingMore.v — corollaries: identifiers, exact table contents, own-reply-only,
+   commutation of notifications, non-vacuity. *)
 From PV Require Import Base.Prelude Model.Ping Model.PingTrace Proofs.Ping Proofs.PingIff.
 Open Scope N_scope.
 
 (* ------------------------------------------------------------------ *)
 (* identifiers *)
 
-(* ids are next0 + (number of earlier Begin events), modulo 2^16; no look at the table *)
-Theorem id_rule fx n tr s q pg : n < 65536 -> run fx (init n) tr = Ok s ->
-  pget (pings s) q = Some pg -> p_id pg = (n + p_seq pg) mod 65536 /\ p_seq pg < cnt s.
-Proof. intros Hn H Hq. eapply inv2_id; eauto. eapply Inv2_run; eauto. Qed.
+Lemma Good_reach fx n tr s : n < 65536 -> run fx (init n) tr = Ok s -> Good s.
+Proof. intros Hn H. eapply Good_run; [apply Good_init; exact Hn|exact H]. Qed.
 
-Theorem ids_equal_exact fx n tr s q1 q2 pg1 pg2 : n < 65536 -> run fx (init n) tr = Ok s ->
-  pget (pings s) q1 = Some pg1 -> pget (pings s) q2 = Some pg2 ->
-  (p_id pg1 = p_id pg2 <-> p_seq pg1 mod 65536 = p_seq pg2 mod 65536).
-Proof. intros Hn H. eapply id_equal_iff. eapply Inv2_run; eauto. Qed.
+(* the identifier handed to a new call is one no call is waiting on *)
+Theorem begin_fresh fx s p s' : Inv s -> step fx s (Begin p) = Ok s' -> table_full (tbl s) = false ->
+  exists i, id_of s' p = Some i /\ tget (tbl s) i = None /\ tget (tbl s') i = Some p /\ waiting s' p = true.
+Proof.
+  intros HI H Hf. cbn [step] in H. destruct (pget (pings s) p); [discriminate|]. rewrite Hf in H.
+  destruct (alloc (tbl s) (next s)) as [i|] eqn:Ea; [|discriminate]. cbv zeta in H. inversion H; subst s'.
+  destruct (first_free_spec _ _ _ _ (inv_next _ HI) Ea) as [Hfree _].
+  exists i. unfold id_of, waiting. cbn [tbl pings]. rewrite pget_pset, Nat.eqb_refl, tget_tset, N.eqb_refl.
+  repeat split; auto.
+Qed.
 
-Theorem distinct_run fx n tr s q1 q2 pg1 pg2 : n < 65536 -> run fx (init n) tr = Ok s -> young s ->
+(* with all 65536 identifiers waited for the call returns an error and registers nothing *)
+Theorem begin_full fx s p s' : step fx s (Begin p) = Ok s' -> table_full (tbl s) = true ->
+  result_of s' p = Some RBusy /\ tbl s' = tbl s /\ next s' = next s.
+Proof.
+  intros H Hf. cbn [step] in H. destruct (pget (pings s) p); [discriminate|]. rewrite Hf in H.
+  inversion H; subst s'. unfold result_of, set_pings. cbn [tbl pings next]. rewrite pget_pset, Nat.eqb_refl. auto.
+Qed.
+
+(* calls that are outstanding and not yet woken have pairwise distinct identifiers, in every
+   reachable state *)
+Theorem distinct_run fx n tr s q1 q2 pg1 pg2 : n < 65536 -> run fx (init n) tr = Ok s ->
   q1 <> q2 -> pget (pings s) q1 = Some pg1 -> pget (pings s) q2 = Some pg2 ->
-  outstanding pg1 = true -> outstanding pg2 = true -> p_id pg1 <> p_id pg2.
-Proof. intros Hn H. eapply ids_distinct. eapply Inv2_run; eauto. Qed.
+  outstanding pg1 = true -> outstanding pg2 = true -> p_recv pg1 = false -> p_recv pg2 = false ->
+  p_id pg1 <> p_id pg2.
+Proof. intros Hn H. eapply ids_distinct. eapply good_entry. eapply Good_reach; eauto. Qed.
 
 (* ------------------------------------------------------------------ *)
-(* sufficient conditions for [young] *)
-
-Lemma always_impl fx (P Q : state -> Prop) tr : (forall s, P s -> Q s) ->
-  forall s, always fx P s tr -> always fx Q s tr.
-Proof.
-  intros HPQ. induction tr as [|e r IH]; intros s; cbn [always]; intros [A B]; split; auto.
-  destruct (step fx s e); auto.
-Qed.
-
-Definition count_begins (tr : list event) : N :=
-  fold_right (fun e acc => match e with Begin _ => acc + 1 | BulkFail n => acc + n | _ => acc end) 0 tr.
-
-Lemma cnt_bounded fx tr : forall s, cnt s + count_begins tr < 65536 ->
-  always fx (fun s => cnt s < 65536) s tr.
-Proof.
-  induction tr as [|e r IH]; intros s H; cbn [always count_begins fold_right] in *.
-  - split; [lia|exact I].
-  - fold (count_begins r) in H. split; [destruct e; lia|].
-    destruct (step fx s e) eqn:E; auto. apply IH.
-    destruct (step_cnt _ _ _ _ E) as [-> _]. destruct e; lia.
-Qed.
-
-Lemma small_cnt_young s : cnt s < 65536 -> young s.
-Proof. intros H q pg _ _. lia. Qed.
-
-(* a history that hands out fewer than 65536 identifiers in total is young throughout *)
-Theorem few_begins_young fx n tr : count_begins tr < 65536 -> always fx young (init n) tr.
-Proof.
-  intros H. eapply always_impl; [apply small_cnt_young|]. apply cnt_bounded. cbn [init cnt]. lia.
-Qed.
-
-Lemma youngb_spec s : youngb s = true -> young s.
-Proof.
-  unfold youngb, young. rewrite forallb_forall. intros H q pg Hq W.
-  assert (Hin : In (q, pg) (pings s)).
-  { clear -Hq. induction (pings s) as [|[q' v] r IH]; cbn [pget] in Hq; [discriminate|].
-    destruct (Nat.eqb_spec q' q); [inversion Hq; subst; left; reflexivity|right; auto]. }
-  specialize (H _ Hin). cbn [snd] in H. rewrite W in H. lia.
-Qed.
-
-Lemma not_known_wrap_young s : known_C19_wrap s = false -> young s.
-Proof. unfold known_C19_wrap. intros H. apply youngb_spec. destruct (youngb s); [reflexivity|discriminate]. Qed.
-
-(* ------------------------------------------------------------------ *)
-(* the table holds exactly the calls that wait and have not been woken *)
+(* the table holds exactly the calls that are outstanding and have not been woken *)
 
 Theorem table_exact fx n tr s : n < 65536 -> run fx (init n) tr = Ok s ->
-  always fx young (init n) tr -> (fx = true \/ known_C19_sendfail tr = false) ->
+  (fx = true \/ known_C19_sendfail tr = false) ->
   forall i q, tget (tbl s) i = Some q <->
     exists pg, pget (pings s) q = Some pg /\ outstanding pg = true /\ p_recv pg = false /\ p_id pg = i.
 Proof.
-  intros Hn H A Hfx i q.
-  destruct (Good_run _ _ _ _ _ (Good_init _ Hn) A H) as [[HI _ HE] _].
+  intros Hn H Hfx i q.
+  destruct (Good_reach _ _ _ _ Hn H) as [HI HE].
   assert (Ho : owned_by_waiting s).
   { apply (owned_run fx tr (init n) s Hfx (Inv_init n Hn)); [intros ? ?; cbn; discriminate|exact H]. }
   split.
@@ -140,21 +111,7 @@ Proof.
 Qed.
 
 (* ------------------------------------------------------------------ *)
-(* non-vacuity of ping_iff: both outcomes occur in one young history *)
-
-Fixpoint alwaysb (fx : bool) (P : state -> bool) (s : state) (tr : list event) : bool :=
-  P s && match tr with
-         | [] => true
-         | e :: r => match step fx s e with Ok s' => alwaysb fx P s' r | _ => true end
-         end.
-
-Lemma alwaysb_spec fx (P : state -> bool) (Q : state -> Prop) tr : (forall s, P s = true -> Q s) ->
-  forall s, alwaysb fx P s tr = true -> always fx Q s tr.
-Proof.
-  intros HPQ. induction tr as [|e r IH]; intros s; cbn [alwaysb always]; intros H;
-    apply andb_true_iff in H; destruct H as [A B]; split; auto.
-  destruct (step fx s e); auto.
-Qed.
+(* non-vacuity of ping_iff: both outcomes occur in one history *)
 
 Definition ex_pre : list event := [Begin 0%nat; Sent 0%nat true].
 (* call 1 (id 2): a foreign reply arrives while it is still inside its send, another one later *)
@@ -164,15 +121,11 @@ Definition ex_post : list event := [End 0%nat; Notify 2].
 Definition ex_history : list event := ex_pre ++ Begin 1%nat :: ex_mid ++ End 1%nat :: ex_post.
 
 Example ping_iff_nonvacuous :
-  exists s, run false init_go ex_history = Ok s /\ always false young init_go ex_history /\
+  exists s, run false init_go ex_history = Ok s /\
             id_of s 1%nat = Some 2 /\ result_of s 1%nat = Some RTimeout /\
             id_of s 0%nat = Some 1 /\ result_of s 0%nat = Some RNil /\
             id_of s 2%nat = Some 3 /\ result_of s 2%nat = None.
-Proof.
-  eexists. split; [vm_compute; reflexivity|].
-  split; [apply (alwaysb_spec false youngb young _ youngb_spec); vm_compute; reflexivity|].
-  repeat split; vm_compute; reflexivity.
-Qed.
+Proof. eexists. split; [vm_compute; reflexivity|]. repeat split; vm_compute; reflexivity. Qed.
 
 (* a reply parsed while the call is still inside its send completes it: the waiter is registered
    before the request is written *)
@@ -182,8 +135,17 @@ Example reply_during_send :
   exists s, run FIX24 init_go ex_during_send = Ok s /\ result_of s 0%nat = Some RNil /\ tbl s = [].
 Proof. eexists. split; [vm_compute; reflexivity|]. split; vm_compute; reflexivity. Qed.
 
-(* the send returning and a notification commute (a reply delivered by another goroutine right
-   after WriteTo may be parsed before or after the pinging goroutine sees WriteTo return) *)
+(* the history that used to collide (call 0 waits, the identifier counter goes once around, call 1
+   starts): call 1 now skips identifier 1, and the reply for identifier 1 completes call 0 *)
+Definition wrap_history : list event :=
+  [Begin 0%nat; Sent 0%nat true; BulkFail 65535; Begin 1%nat; Sent 1%nat true; Notify 1; End 0%nat;
+   Timeout 1%nat; End 1%nat].
+Example wrap_repaired :
+  exists s, run true init_go wrap_history = Ok s /\
+    id_of s 0%nat = Some 1 /\ id_of s 1%nat = Some 2 /\
+    result_of s 0%nat = Some RNil /\ result_of s 1%nat = Some RTimeout /\ tbl s = [].
+Proof. eexists. split; [vm_compute; reflexivity|]. repeat split; vm_compute; reflexivity. Qed.
+
 Lemma pset_pset l p v w : pset (pset l p v) p w = pset l p w.
 Proof.
   induction l as [|[k u] r IH]; unfold pset; fold pset.
